@@ -166,7 +166,7 @@ def _gen_op(g, kind, cols, stats):
         combos = [[]]
         for s in srcs:
             combos = [c + [v] for c in combos for v in DOMAINS.get(s, ["0.5", "1"]) + ["n/a"]]
-        rows = g.sample(combos, g.randint(1, min(4, len(combos))))
+        rows = g.sample(combos, g.randint(1, min(4, len(combos))) if g.chance(0.4) else min(len(combos), g.randint(2, 4)))
         map_list = [r + ["%s%d" % (d, i) for d in dests] for i, r in enumerate(rows)]
         p = {"source_columns": srcs, "destination_columns": dests, "map_list": map_list, "ignore_missing": True}
         if "code" in srcs and g.chance(0.5):
@@ -247,7 +247,11 @@ def _invalidate(g, ops):
         p["factor_values"] = ["go", "stop"]
         p["factor_names"] = ["only_one"]
     elif how == "map-row-wrong-length":
-        p["map_list"][0] = p["map_list"][0] + ["extra"]
+        j = g.randrange(len(p["map_list"]))
+        if g.chance(0.5) or len(p["map_list"][j]) < 2:
+            p["map_list"][j] = p["map_list"][j] + ["extra"]
+        else:
+            p["map_list"][j] = p["map_list"][j][:-1]
     elif how == "integer-sources-not-sources":
         p["integer_sources"] = ["not_a_source"]
     elif how == "column-in-match-columns":
